@@ -14,10 +14,10 @@ Definition rexp (e : rentry) : Z := snd e.
 Definition ns : Z := 1000000000.
 Definition tol : Z := 1000.     (* float64 rounding of (1 +- 0.05) * expire, in nanoseconds *)
 (* ticks after the Set at which the entry may be dropped for age: floor(0.95 e / 1s) .. floor(1.05 e / 1s) *)
-Definition lo_ticks (e : Z) : nat := Z.to_nat ((e * 95 / 100 - tol) / ns).
-Definition hi_ticks (e : Z) : nat := Z.to_nat ((e * 105 / 100 + tol) / ns).
+Definition lo_ticks (I e : Z) : nat := Z.to_nat ((e * 95 / 100 - tol) / I).
+Definition hi_ticks (I e : Z) : nat := Z.to_nat ((e * 105 / 100 + tol) / I).
 (* the jittered delay is at least one wheel interval (else the entry's age is below the tick granularity) *)
-Definition in_scope (e : Z) : bool := (ns <=? e * 95 / 100 - tol)%Z.
+Definition in_scope (I e : Z) : bool := (I <=? e * 95 / 100 - tol)%Z.
 
 Definition rfind (k : nat) (r : list rentry) : option rentry := find (fun e => rkey e =? k) r.
 Definition rdel (k : nat) (r : list rentry) : list rentry := filter (fun e => negb (rkey e =? k)) r.
